@@ -569,16 +569,26 @@ func TestC11SeqKeyPair(t *testing.T) {
 				seedB[0] ^= 1
 			}
 			msg := vlib.Bytes(t, 0, 40, "m")
-			pkA, skA := s.DeriveKey(seedA)
+			seedBuf := append([]byte{}, seedA...)
+			pkA, skA := s.DeriveKey(seedBuf)
+			for i := range seedBuf { // the caller's seed buffer is overwritten: the key pair must not point into it
+				seedBuf[i] = ^seedBuf[i]
+			}
 			pkB, _ := s.DeriveKey(seedB)
 			pkBb := mb(pkB.MarshalBinary())
 			observe := func() string {
 				return fmt.Sprintf("sig=%x sk=%x pub=%x", s.Sign(skA, msg, nil), mb(skA.MarshalBinary()), mb(skA.Public().(sign.PublicKey).MarshalBinary()))
 			}
-			var want string
+			// the expectation always comes from an independent key pair derived from the same seed
+			_, skA2 := s.DeriveKey(seedA)
+			want := fmt.Sprintf("sig=%x sk=%x pub=%x", s.Sign(skA2, msg, nil), mb(skA2.MarshalBinary()), mb(skA2.Public().(sign.PublicKey).MarshalBinary()))
 			useBefore := rapid.Bool().Draw(t, "useBefore")
 			if useBefore {
-				want = observe()
+				if got := observe(); got != want {
+					vlib.Report(t, "C11/keypair/sign/"+s.Name()+"/key-depends-on-seed-buffer-after-derivation",
+						fmt.Sprintf("seed %x: after the caller's seed buffer was overwritten the key pair observes\n %.200s\nexpected\n %.200s", seedA, got, want))
+					return
+				}
 			}
 			target := "pk-from-DeriveKey"
 			var obj any = pkA
@@ -599,11 +609,6 @@ func TestC11SeqKeyPair(t *testing.T) {
 				target += "(bytes overwritten)"
 			} else if err := u.UnmarshalBinary(append([]byte{}, pkBb...)); err != nil {
 				t.Fatalf("harness: valid public key refused: %v", err)
-			}
-			if !useBefore {
-				// the expectation comes from an independent key pair derived from the same seed
-				_, skA2 := s.DeriveKey(seedA)
-				want = fmt.Sprintf("sig=%x sk=%x pub=%x", s.Sign(skA2, msg, nil), mb(skA2.MarshalBinary()), mb(skA2.Public().(sign.PublicKey).MarshalBinary()))
 			}
 			if got := observe(); got != want {
 				vlib.Report(t, "C11/keypair/sign/"+s.Name()+"/private-key-changed-by-decoding-into-its-public-key",
